@@ -86,8 +86,8 @@ var c04Waivers = []c04Waiver{
 	{"crypto/rfc3961.Nfold", `^div crypto/rfc3961\.lcm\(n, .*\) / n$`, 1, "n is an etype constant (GetKeySeedBitLength/GetCypherBlockBitLength: 64, 128, 168), never 0"},
 	{"crypto/rfc3961.Nfold", `^(index|slice) \$L0\[`, 1, "sumBytes holds lcm/8 bytes (lcm/k copies of the len(m)-byte rotation) and j+i*len(sum) < (lcm/n)*(n/8) = lcm/8"},
 	{"crypto/rfc3961.lcm", `^div \(x \* y\) / crypto/rfc3961\.gcd\(x, y\)$`, 1, "x is the etype constant n > 0, so gcd(x, y) ≥ 1 (gcd returns x when y is 0)"},
-	{"crypto/rfc3961.getBit", `^index \*b\[\(p / 8\)\]$`, 1, "callers iterate p over 0 … 8·len(*b)-1 (onesComplementAddition over slices of equal length n/8, rotateRight over len(b)·8)"},
-	{"crypto/rfc3961.setBit", `^index \*b\[\(p / 8\)\]$`, 1, "callers pass p in 0 … 8·len(*b)-1: the loop index, or (i+step) mod bitLen"},
+	{"crypto/rfc3961.getBit", `^index \*?b\[\(p / 8\)\](#\d+)?$`, 1, "callers iterate p over 0 … 8·len(*b)-1 (onesComplementAddition over slices of equal length n/8, rotateRight over len(b)·8)"},
+	{"crypto/rfc3961.setBit", `^index \*?b\[\(p / 8\)\](#\d+)?$`, 2, "callers pass p in 0 … 8·len(*b)-1: the loop index, or (i+step) mod bitLen"},
 	{"crypto/rfc3961.onesComplementAddition", `^index make\(\[\]byte, len\(n1\)\)\[`, 1, "n1 has n/8 ≥ 8 bytes (etype constant), so the carry array is not empty"},
 	{"crypto/rfc3961.DES3RandomToKey", `^slice b\[(:7|7:14|14:21)\]$`, 3, "b is the 21 byte (168 bit key seed) output of DeriveRandom or Nfold(…, 168)"},
 	{"crypto/rfc3961.fixWeakKey", `^index b\[7\]`, 2, "b is the 8 byte output of stretch56Bits"},
@@ -393,13 +393,17 @@ func runC04(w *World, c *Check) {
 					c.Ok(rule, k, construct, where, "discharged by "+why)
 					continue
 				}
-				if wv := c04WaiverFor(fn, k, construct, helperOwners(cg, fn)); wv != nil {
+				wk := k
+				if a, isAlias := aliasOf(fn); isAlias {
+					wk = a // the waiver table names functions by their reference keys
+				}
+				if wv := c04WaiverFor(fn, wk, construct, helperOwners(cg, fn)); wv != nil {
 					stats["waiver"]++
 					waiverUse[wv]++
 					c.Ok(rule, k, construct, where, "not input-dependent: "+wv.reason)
 					continue
 				}
-				if as, has := c04Assumes[k]; has {
+				if as, has := c04Assumes[wk]; has {
 					abc := newBoundsCtx(w, fn)
 					abc.assumed = c04Assumed(abc, fn, as.facts)
 					if ok2, _ := c04Discharge(w, c, abc, fn, ob, cg, inScope); ok2 {
@@ -963,11 +967,50 @@ func translateLin(bc, cb *boundsCtx, fn *ssa.Function, site *ssa.Call, g lin) (l
 				if !isVal {
 					continue
 				}
+				// a field of an argument that is a struct *value*: the same value wherever the caller
+				// selects it (no memory involved, so no dominance needed)
+				if fl, isField := in.(*ssa.Field); isField {
+					root := fl.X
+					for {
+						f2, ok := root.(*ssa.Field)
+						if !ok {
+							break
+						}
+						root = f2.X
+					}
+					isArg := false
+					for _, a := range site.Call.Args {
+						if a == root {
+							isArg = true
+						}
+					}
+					if isArg && cb.r.R(val) == want {
+						return val, true
+					}
+					continue
+				}
 				if u, isLoad := in.(*ssa.UnOp); !isLoad || u.Op != token.MUL {
 					continue
 				}
 				if instrDominates(in, site) && cb.r.R(val) == want {
 					return val, true
+				}
+				// a field of a local that is assigned once per activation (a range variable, a spilled
+				// value): the same value before and after the call
+				if cb.r.R(val) == want {
+					addr := in.(*ssa.UnOp).X
+					for {
+						fa, ok := addr.(*ssa.FieldAddr)
+						if !ok {
+							break
+						}
+						addr = fa.X
+					}
+					if al, ok := addr.(*ssa.Alloc); ok && readOnlyFieldsLocal(al) {
+						if st := uniqueStoreInstr(al); st != nil && instrDominates(st, site) && instrDominates(st, in) {
+							return val, true
+						}
+					}
 				}
 			}
 		}
@@ -1009,6 +1052,14 @@ func translateLin(bc, cb *boundsCtx, fn *ssa.Function, site *ssa.Call, g lin) (l
 		}
 		na := atom{kind: 'x', s: name}
 		cb.names[na] = name
+		if cb.xtype == nil {
+			cb.xtype = map[atom]types.Type{}
+		}
+		if isLen {
+			cb.xtype[na] = types.Typ[types.Uint64] // a length: non-negative, no upper bound claimed
+		} else {
+			cb.xtype[na] = v.Type()
+		}
 		return linAtom(na), true
 	}
 	for a, cf := range g.t {
@@ -1217,4 +1268,32 @@ func syncMapHomogeneous(w *World, g *ssa.Global, t types.Type) bool {
 		}
 	}
 	return n > 0
+}
+
+// readOnlyFieldsLocal: a local whose address is used only to store the whole value, to load it,
+// and to load fields of it (no field store, no escape).
+func readOnlyFieldsLocal(a *ssa.Alloc) bool {
+	var ok func(v ssa.Value, depth int) bool
+	ok = func(v ssa.Value, depth int) bool {
+		if v.Referrers() == nil || depth > 4 {
+			return false
+		}
+		for _, r := range *v.Referrers() {
+			switch x := r.(type) {
+			case *ssa.Store:
+				if x.Addr != v || depth > 0 {
+					return false
+				}
+			case *ssa.UnOp, *ssa.DebugRef:
+			case *ssa.FieldAddr:
+				if !ok(x, depth+1) {
+					return false
+				}
+			default:
+				return false
+			}
+		}
+		return true
+	}
+	return ok(a, 0)
 }
